@@ -290,6 +290,9 @@ class QueryMachine(Machine):
                 continue
             if q[0] in ("to_file_asym", "result_dict_asym") and sim.spec["minimizer"] != "iminuit" and case.get("tier") != "thorough":
                 continue  # generic profile search: seconds per parameter; thorough tier only
+            if q[0] in ("profile", "cp_profile") and sim.spec["minimizer"] != "iminuit" and ((sim.ref.n_par - len(sim.ref.fixed)) == 1 or sim.limited) and case.get("tier") != "thorough":
+                res.bump("query_skipped_scipy_profile_single_parameter")
+                continue  # constrained SLSQP with nothing left to vary runs to its iteration limit (tens of seconds): thorough tier only
             if q[0] in ("contour", "cp_contours") and sim.spec["minimizer"] != "iminuit" and (case.get("tier") != "thorough" or sim.limited):
                 res.bump("query_skipped_scipy_contour")
                 continue  # the scipy contour heuristic can take minutes (with limits: > 4 min observed); thorough tier, unlimited parameters only
@@ -314,8 +317,14 @@ class QueryMachine(Machine):
             if prev_q == q and raised is None and s is not None and prev_sum is not None:
                 res.probe("same_question_twice")
                 if s.shape != prev_sum.shape or not np.allclose(s, prev_sum, rtol=0.05, atol=0.05 * float(np.max(np.abs(prev_sum))) + 1e-9, equal_nan=True):
+                    tags = []
+                    if q[0] in ("profile", "cp_profile"):
+                        pi = sim.ref.par_names.index(q[1])
+                        far = 1e4 * (abs(base["err"][pi]) + 1e-12)
+                        if any(abs(v - base["p"][pi]) > far for v in list(s[:2]) + list(prev_sum[:2])):
+                            tags.append("diverged-profile-bounds")
                     raise Violation(PROP, "same-answer", q[0], "query %r asked twice in a row gave %s then %s" % (q, _fmt(prev_sum), _fmt(s)), step=step,
-                                    expected=prev_sum, actual=s)
+                                    expected=prev_sum, actual=s, extra={"tags": tags})
             prev_q, prev_sum = q, (s if raised is None else None)
             log.add(["q"] + list(q), "raised" if raised else "ok", s)
             nx = fit._nexus
